@@ -295,7 +295,9 @@ impl Xot {
     /// assert!(xot.is_removed(text));
     /// ```
     pub fn is_removed(&self, node: Node) -> bool {
-        self.arena()[node.get()].is_removed()
+        // compare the stamp carried by the handle with the slot's: the slot
+        // may have been reused for another node since
+        node.get().is_removed(self.arena())
     }
 
     /// Get parent node.
